@@ -1,6 +1,7 @@
 """Helpers shared by the per-property pipelines."""
 import json
 import os
+import re
 import random
 
 import vlib
@@ -40,7 +41,23 @@ def emit_behaviours(chk, scratch, spec_dir, module, cfg, what, simulate=None, de
     return out
 
 
-def replay(chk, vh, scratch, prop, behaviours, name="behaviours", extra=None, timeout=1800, mode="replay"):
+def library_crash(stderr, pkgs):
+    """A Go runtime crash report whose panicking goroutine runs, or was created by, one of the library packages `pkgs`
+    (and not the harness): returns its head, else None."""
+    if not pkgs:
+        return None
+    m = re.search(r"^(panic: |fatal error: )", stderr, re.M)
+    if not m:
+        return None
+    report = stderr[m.start():]
+    first = report.split("\n\ngoroutine ", 2)
+    head = "\n\ngoroutine ".join(first[:2])      # the message and the crashing goroutine
+    if any(("golang-utils/utils/" + k) in head for k in pkgs):
+        return head
+    return None
+
+
+def replay(chk, vh, scratch, prop, behaviours, name="behaviours", extra=None, timeout=1800, mode="replay", crash_pkgs=()):
     """Run `vh <prop> replay` over behaviours and fold the results into the check."""
     inp = os.path.join(scratch, name + ".ndjson")
     outp = os.path.join(scratch, name + ".results.ndjson")
@@ -50,6 +67,12 @@ def replay(chk, vh, scratch, prop, behaviours, name="behaviours", extra=None, ti
         args += ["-x", "%s=%s" % (k, v)]
     p = vlib.run_vh(vh, args, timeout=timeout)
     if p.returncode != 0:
+        crash = library_crash(p.stderr or "", crash_pkgs)
+        if crash:
+            # the process died of a Go panic / fatal error raised in (or in a goroutine started by) the library under test:
+            # that is an observation of the real code, not a dead driver
+            chk.violation("library-crashes-the-process", "the replay process died: " + crash[:1500], {"stderr": (p.stderr or "")[:6000]})
+            return []
         raise vlib.Inconclusive("replay driver failed (%s): %s" % (prop, (p.stderr or p.stdout)[-3000:]))
     results = vlib.read_ndjson(outp)
     if behaviours and not results:
